@@ -235,15 +235,18 @@ pub fn auc_case<T: Fl>(labels: &[u8], scores: &[f64], origin: &dyn Fn() -> Strin
     let seen: Vec<f64> = s.iter().map(|x| f(*x)).collect();
     let (u2, pos, neg) = auc_pairs(labels, &seen);
     let want = u2 as f64 / (2.0 * pos as f64 * neg as f64);
-    let tc = tie_class(&seen);
+    let (tc, near) = tie_info(&seen, T::EPS);
     let class = format!(
-        "{}{}",
+        "{}{}{}",
         match tc {
             TieClass::Constant => "constant-scores",
             TieClass::Tied => "tied-scores",
             TieClass::Distinct => "distinct-scores",
         },
-        if labels.len() >= 8 { "-quicksort-partition" } else { "-insertion-sort" }
+        if labels.len() >= 8 { "-quicksort-partition" } else { "-insertion-sort" },
+        // round 2: some two DIFFERENT scores are closer than the machine epsilon of T (nearly equal
+        // or tiny scores); the definition still ranks them as different
+        if near { "-different-scores-closer-than-epsilon" } else { "" }
     );
     let input = || format!("y_true={} scores={} (pos={} neg={} 2U={}){}", show(labels), show(&seen), pos, neg, u2, origin());
     match mc::guard(|| metrics::roc_auc_score(&a, &s)) {
@@ -262,9 +265,124 @@ pub fn auc_case<T: Fl>(labels: &[u8], scores: &[f64], origin: &dyn Fn() -> Strin
     }
 }
 
+/// Scores are only compared: multiplying every score by a power of two (no rounding, no underflow
+/// in the enumerated families) must not change the result at all. `lib_scaled` is what the library
+/// returned for `scaled`; the library is called once more on the unscaled scores.
+pub fn auc_scale_invariance<T: Fl>(labels: &[u8], scores: &[f64], scaled: &[f64], lib_scaled: f64, what: &str) {
+    let (a, s): (Vec<T>, Vec<T>) = (labels_t(labels), tv(scores));
+    if let Ok(v) = mc::guard(|| metrics::roc_auc_score(&a, &s)) {
+        let v = f(v);
+        mc::count("auc_power_of_two_scaling_compared");
+        if v.to_bits() != lib_scaled.to_bits() && !(v.is_nan() && lib_scaled.is_nan()) {
+            mc::violation(
+                "auc.scale-invariance:scores-times-power-of-two",
+                format!("roc_auc_score<{}> = {:e} on scores={} but {:e} on the same scores multiplied by {} = {} (y_true={}); scores are only compared, an exact rescaling must not change the result", T::TAG, v, show(scores), lib_scaled, what, show(scaled), show(labels)),
+            );
+        }
+    }
+    // (a panic on the unscaled scores is reported by the jobs that enumerate the unscaled alphabet)
+}
+
 // =====================================================================================================
 // MSE / MAE / R^2
 // =====================================================================================================
+
+/// Round 2: targets c + a_i*h, predictions c + b_i*h (a small spread h around an offset c). The inputs
+/// are whatever floating-point values `c + a*h` rounds to (in f64, then in T); the definitions are
+/// evaluated EXACTLY on those values (refs::exact_reg: common power-of-two unit, i128 sums).
+/// Returns the library's (mse, mae, r2).
+pub fn regression_offset_case<T: Fl>(a: &[i64], b: &[i64], c: f64, h: f64, origin: &dyn Fn() -> String) -> [f64; 3] {
+    let n = a.len();
+    let ya: Vec<f64> = a.iter().map(|k| c + *k as f64 * h).collect();
+    let yb: Vec<f64> = b.iter().map(|k| c + *k as f64 * h).collect();
+    let (x, y): (Vec<T>, Vec<T>) = (tv(&ya), tv(&yb));
+    // the values the library sees (after rounding to T), exactly
+    let (sa, sb): (Vec<f64>, Vec<f64>) = (x.iter().map(|v| f(*v)).collect(), y.iter().map(|v| f(*v)).collect());
+    let r = exact_reg(&sa, &sb);
+    let nf = n as f64;
+    let eps = T::EPS;
+    let maxabs = sa.iter().fold(0.0f64, |m, v| m.max(v.abs()));
+    let input = || format!("y_true={:?} y_pred={:?} (= {} + k*{:e} for k_true={} k_pred={}; exact sums in units of {:e}: rss={} ras={} n*ss_tot={}){}", sa, sb, c, h, show(a), show(b), r.unit, r.rss, r.ras, r.sst_n, origin());
+    let mut out = [f64::NAN; 3];
+
+    let class = if r.rss == 0 { "zero-residuals" } else { "nonzero-residuals" };
+    match mc::guard(|| metrics::mean_squared_error(&x, &y)) {
+        Ok(v) => {
+            let want = r.rss as f64 * r.unit * r.unit / nf;
+            let tol = 4.0 * (nf + 4.0) * eps * want;
+            if agree(&format!("mse.value:offset-targets-{}", class), "mean_squared_error", T::TAG, f(v), want, tol, &input) && T::TAG == "f64" && r.rss != 0 {
+                headroom!("mse_offset", (f(v) - want).abs(), tol);
+            }
+            out[0] = f(v);
+        }
+        Err(p) => mc::violation(panic_site("mse", "equal-length", &p), format!("mean_squared_error<{}> panicked: {}; {}", T::TAG, p.brief(), input())),
+    }
+    match mc::guard(|| metrics::mean_absolute_error(&x, &y)) {
+        Ok(v) => {
+            let want = r.ras as f64 * r.unit / nf;
+            let tol = 4.0 * (nf + 4.0) * eps * want;
+            if agree(&format!("mae.value:offset-targets-{}", class), "mean_absolute_error", T::TAG, f(v), want, tol, &input) && T::TAG == "f64" && r.rss != 0 {
+                headroom!("mae_offset", (f(v) - want).abs(), tol);
+            }
+            out[1] = f(v);
+        }
+        Err(p) => mc::violation(panic_site("mae", "equal-length", &p), format!("mean_absolute_error<{}> panicked: {}; {}", T::TAG, p.brief(), input())),
+    }
+    if r.sst_n > 0 {
+        let q = (r.rss * n as i128) as f64 / r.sst_n as f64; // ss_res / ss_tot, exact up to two roundings
+        let want = 1.0 - q;
+        let ss_tot = r.sst_n as f64 / nf * r.unit * r.unit;
+        // first order: (n+O(1)) roundings in each of the two sums and the quotient; second order: the
+        // rounding error d of the computed mean (|d| <= n eps max|y|) enters ss_tot only as n d^2
+        // (the differences y_i - mean are exact, all values lie within a factor 2 of each other)
+        let second = 8.0 * nf * nf * nf * eps * eps * maxabs * maxabs / ss_tot;
+        let tol = (1.0 + q) * (16.0 * (nf + 4.0) * eps + second);
+        let class = if r.rss == 0 {
+            "perfect-fit"
+        } else if r.rss * n as i128 > r.sst_n {
+            "worse-than-mean"
+        } else {
+            "between-0-and-1"
+        };
+        match mc::guard(|| metrics::r2(&x, &y)) {
+            Ok(v) => {
+                if agree(&format!("r2.value:offset-targets-{}", class), "r2", T::TAG, f(v), want, tol, &input) {
+                    if T::TAG == "f64" {
+                        headroom!("r2_offset_f64", (f(v) - want).abs(), tol);
+                    } else {
+                        headroom!("r2_offset_f32", (f(v) - want).abs(), tol);
+                    }
+                }
+                mc::count(if T::TAG == "f64" { "r2_offset_judged_f64" } else { "r2_offset_judged_f32" });
+                if (f(v) - want).abs() > (1.0 + q) * 16.0 * (nf + 4.0) * eps {
+                    // within the tolerance only thanks to its second-order (rounded mean) term
+                    mc::count("r2_offset_err_above_first_order_term");
+                }
+                if ss_tot < eps {
+                    mc::count(if T::TAG == "f64" { "r2_ss_tot_below_epsilon_f64" } else { "r2_ss_tot_below_epsilon_f32" });
+                    mc::count(if T::TAG == "f64" { "r2_offset_ss_tot_below_epsilon_f64" } else { "r2_offset_ss_tot_below_epsilon_f32" });
+                }
+                if ss_tot < eps * maxabs * maxabs {
+                    mc::count("r2_offset_ss_tot_below_epsilon_times_mean_square");
+                }
+                if second > 1e-3 {
+                    mc::count("r2_offset_tolerance_above_1e-3");
+                }
+                if want < 0.0 {
+                    mc::count("r2_negative");
+                }
+                out[2] = f(v);
+            }
+            Err(p) => mc::violation(panic_site("r2", "equal-length", &p), format!("r2<{}> panicked: {}; {}", T::TAG, p.brief(), input())),
+        }
+    } else {
+        mc::count("r2_undefined_constant_truth");
+        if a.iter().any(|k| *k != a[0]) {
+            mc::count("r2_offset_spread_lost_in_rounding_to_T");
+        }
+    }
+    out
+}
 
 /// y_true = a * scale, y_pred = b * scale with integer a, b: the definitions are evaluated exactly
 /// on the integers. Returns the library's (mse, mae, r2).
@@ -335,6 +453,10 @@ pub fn regression_case<T: Fl>(a: &[i64], b: &[i64], scale: f64, origin: &dyn Fn(
                 }
                 if want < 0.0 {
                     mc::count("r2_negative");
+                }
+                // non-constant truth whose total sum of squares is below the machine epsilon of T
+                if sst_n as f64 / nf * scale * scale < eps {
+                    mc::count(if T::TAG == "f64" { "r2_ss_tot_below_epsilon_f64" } else { "r2_ss_tot_below_epsilon_f32" });
                 }
                 out[2] = f(v);
             }
